@@ -720,6 +720,16 @@ def execute(plan, record_last=False, record_lines=False):
                         k, n, len(exp), exp[n]), sig_f)
                     break
                 _check_completed(w, pid, res, k, inc, cfg, pname, pred, final_name, parts, sig_f, plan)
+                # abstract state of a completed call (coverage measure only)
+                rule = w.script.get("stop", {}).get("kind", "always")
+                reps = [pv["rep"] for pv in pred["per_v"].values()]
+                where = "none" if not reps else ("rep1" if min(reps) == 1 and rep_max > 1 else "limit" if min(reps) >= rep_max else "middle")
+                nsk = sum(1 for t in real if t[2] == "skip")
+                first_skip = any(t[2] == "skip" and t[1] == 0 for t in real)
+                res["state_keys"].append("done|unp=%d|nv=%s|stop=%s@%s|skips=%s|firstskip=%s|call=%s|k=%d|same=%s|loaded=%s|repmax=%s" % (
+                    len(cfg["unpacked"]), min(len(durable), 9), rule, where, min(nsk, 3), first_skip, inc["call"]["kind"], k,
+                    bool(inc.get("same_runner")), sum(1 for pv in pred["per_v"].values() if pv["loaded"]) > 0,
+                    "big" if rep_max >= 400 else "small"))
                 if res["status"] != "ok":
                     break
             check_durable_consistency(w, pid, res, k, had_fault)
